@@ -6,7 +6,7 @@
    fields, values or on their magnitudes). *)
 From Coq Require Import List NArith ZArith Bool.
 From PV Require Import Model.MiniProto Model.Lower Model.Validate Model.ValiditySpec Model.ProtocDescriptor.
-From PV Require Import Proofs.ValidateRanges Proofs.Validate Proofs.ValidateJson Proofs.ValidateBasic Proofs.ExtDecl.
+From PV Require Import Proofs.ValidateRanges Proofs.Validate Proofs.ValidateJson Proofs.ValidateBasic Proofs.ExtDecl Proofs.LowerNames.
 Import ListNotations.
 Open Scope Z_scope.
 
@@ -133,6 +133,31 @@ Theorem C01_json_go_stricter_proto2 :
   protoc_json_errors to_json_name false (map jf_of [ex_foo; ex_foo_bar]) = [].
 Proof. exact json_go_stricter_proto2_lemma. Qed.
 Print Assumptions C01_json_go_stricter_proto2.
+
+(* ---- F2, reserved names as written in the source (parser/result.go addReservedNames), both spellings: in an editions
+   file the identifiers are read, otherwise the string literals ([spelled]); the other spelling is reported iff it is
+   used; a duplicate is reported iff the names read repeat among themselves or meet a name an earlier reserved
+   statement of the same message / enum recorded ([seen] is alreadyReserved); afterwards exactly the earlier names and
+   the names of this statement are recorded, whatever was reported; without a report the names are appended to the
+   descriptor in source order ---- *)
+Theorem C01_reserved_names_iff : forall syn strs idents names seen names' seen' errs',
+  add_reserved_names syn strs idents names seen = (names', seen', errs') ->
+  let ns := spelled syn strs idents in
+  (In EReservedNameForm errs' <-> misspelled syn strs idents <> []) /\
+  (In EReservedNameDup errs' <-> ~ (NoDup ns /\ forall x, In x ns -> ~ In x seen)) /\
+  (errs' = [] <-> misspelled syn strs idents = [] /\ NoDup ns /\ forall x, In x ns -> ~ In x seen) /\
+  (forall x, In x seen' <-> In x seen \/ In x ns) /\
+  (exists added, names' = names ++ added /\ seen' = seen ++ added /\ (errs' = [] -> added = ns)).
+Proof. exact reserved_names_iff_lemma. Qed.
+Print Assumptions C01_reserved_names_iff.
+
+(* non-vacuity of the above: edition 2023, reserved foo, foo - and reserved foo after an earlier reserved foo *)
+Example C01_reserved_names_nonvacuous :
+  add_reserved_names Editions [] [[102;111;111]; [102;111;111]]%N [] [] = ([[102;111;111]], [[102;111;111]], [EReservedNameDup])%N /\
+  add_reserved_names Editions [] [[98]; [102;111;111]]%N [[102;111;111]]%N [[102;111;111]]%N
+    = ([[102;111;111]; [98]], [[102;111;111]; [98]], [EReservedNameDup])%N /\
+  add_reserved_names Proto2 [[102;111;111]; [102;111;111]]%N [] [] [] = ([[102;111;111]], [[102;111;111]], [EReservedNameDup])%N.
+Proof. repeat split; vm_compute; reflexivity. Qed.
 
 (* non-vacuity: reserved 5 to 9 and 1 to 5 (half-open [5,10) and [1,6)) share the number 5, the
    scan reports it; with 1 to 4 instead nothing is reported and 9 is found in a range, 10 is not *)
